@@ -149,6 +149,9 @@ func c07(tier string) []*explore.Scenario {
 	// over the HTTP transport: the reset of a cancelled stream parked across its own write timeout
 	out = append(out, httpResetAcrossTimeout("C07"))
 	out = append(out, apiSeqs("C07", tier)...)
+	// the same cancellations on a connection with a history
+	out = append(out, withHistory(historyKinds(tier), pickScenarios(out, "cancel/pingpong/at=2/cap=64/others=0/ctxrace=false/deadline=false", "cancel/sendall/at=3/cap=0/others=0/ctxrace=false/deadline=false",
+		"unread/m=2/read=1/other=false", "deadline/rounds=1/deaf=false", "predone/Bidi")...)...)
 	return out
 }
 
